@@ -23,7 +23,7 @@ order) and is not needed for shards merged in shard order or for the stage runne
 
 Theorems (all for every pipeline, dataset, thread count, shard count, partition and schedule):
 `C03_fuse`, `C03_assemble`, `C03_fuse_ok`, `C03_fuse_rejected`, `C03_fuse_output` — fused = chained;
-`C03_threads`, `C03_threads_agg`, `C03_threads_covers_interleavings`   — threads = sequential (multisets);
+`C03_threads`, `C03_threads_agg`, `C03_threads_covers_interleavings`, `C03_threads_delivery` — threads = sequential (multisets);
 `C03_shards`, `C03_shards_pipeline`, `C03_shards_any_order`            — merged shard states = whole run;
 `C03_queue_identity`, `C03_stage_runner`                               — the stage runner = sequential (lists);
 `C03_rebatch_partial`, `C03_rebatch_threads_partial`                   — with re-batching: rows and aggregates
@@ -138,6 +138,17 @@ theorem C03_threads_agg (p : List (Stage E)) (hrow : ∀ s ∈ p, ∀ o ∈ s.op
     a.result out = a.result sq := by
   have hp := (C03_threads p hrow (List.Perm.refl xs) h).2 i out sq ho hs
   exact law.feed_perm ((hp.map a.sel).flatten)
+
+/-- How the hypothesis of `Stage.Exec.par` is discharged by the queue LTS (C04_exactly_once): in every
+reachable configuration of `piter_multiplex`'s queue — any number of producers, any capacity, any
+schedule — in which the queue is empty, nothing was dropped and only the consumer `t` holds elements,
+what the consumer received is a rearrangement of everything the producers put. -/
+theorem C03_threads_delivery {cap maxEnq : Nat} {to ig : Bool} {progs : List Prog} {c : Cfg}
+    (h : Reachable (init cap maxEnq to ig progs) c) (hq : c.sh.q = []) (hl : c.sh.lost = [])
+    {t : Thread} (hsum : sumSeq c.ths = t.received) : t.received.Perm c.sh.produced := by
+  have := MlModel.C04.C04_exactly_once h
+  rw [hq, hl, hsum] at this
+  simpa using this.symm
 
 /-- The relation `Stage.Exec` contains every real interleaving: if the input is dealt to the producers
 as an interleaving `xs` of `parts` (shared locked iterator; for shards `parts.flatten = xs`), and the
@@ -318,6 +329,15 @@ example : Exec exPipe [[[0]], [[1], [2]], [[2]], [[3]]]
   refine .cons (.seq rfl) (.cons (.par [[[[0]], [[2], [4]]], [[[4]], [[6]]]] _ (by decide) ?_ ?_) .nil)
   · decide
   · decide
+
+/-- `C03_rebatch_partial` applies to the driver's pipelines: vectorised functions and `batch(t)` -/
+example : ∀ o ∈ ([.row fun b => [b.map fun r => r.map (2 * ·)], .rebatch (rebatchRows 2)] : List (Op Bat)),
+    RowsOK (fun b : Bat => b) o := by
+  intro o ho
+  simp only [List.mem_cons, List.not_mem_nil, or_false] at ho
+  rcases ho with rfl | rfl
+  · exact mapRows_rowsOK _
+  · exact rebatchRows_rowsOK 2
 
 example : (shardParts (DS.root 5) 2 [10, 11, 12, 13, 14]) = [[10, 11, 12], [13, 14]] := by decide
 
